@@ -8,6 +8,30 @@ props = [json.loads(l) for l in open(os.path.join(V, 'properties.jsonl'))]
 
 # property -> (technique, level text, level note, design ref) ; absent => not yet claimed
 CLAIMS = {
+    'C03': ('Lean 4 theorems: Hamiltonian bookkeeping of concatenation (errors iff documented, one row per distinct operator, coefficients placed per pulse block, identifier mappings, zero / constant fill) on an abstract model; n-pulse algebra: the from-atomic control matrix with cumulative phases and Liouville propagators equals the from-scratch control matrix of the sequenced pulse for a complete basis (all pulse / segment counts), pulse-correlation filter functions sum to the total, regrouping; correspondence on abstract pulses and on atomic data; option x cache-state search',
+            'Machine-checked proof (i) on the discrete model of _concatenate_Hamiltonian run against the real function on abstract pulses, and (ii) on the numerical model (regenerated contractions, cm_entry) that concatenation of any list of pulses reproduces the from-scratch control matrix of the sequenced pulse for complete bases, that pulse-correlation contributions are the from-scratch matrices of the individual pulses in place and sum to the total, and that regrouping does not matter; the decision logic of concatenate (options, cache states, frequencies known or not) is covered by the search, which compares every result with a freshly built sequenced pulse.',
+            'The option/cache decision logic of concatenate is validated, not proved; completeness of the basis is a hypothesis (the code now recomputes from scratch for incomplete bases); identifier suffix collisions are an open finding (F26).',
+            'DESIGN.md §5 C03'),
+    'C05': ('Lean 4 theorems (Kronecker algebra over Mathlib): tensor-sum eigen-decomposition satisfies the eigh contract, propagators factorise, control matrix of B (x) 1 in a product basis is sqrt(d_rest) B at the identity column and 0 elsewhere (on the control-matrix model, all masks), full filter-function matrix incl. cross blocks; index link to equivalentPauli; search vs directly built tensor-product pulses over all assignments / cache states / options',
+            'Machine-checked proof of the extension rules used by extend for the binary split (one pulse vs the rest of the register) on the same control-matrix model as C01, including that cross-correlation blocks are sqrt(d1 d2) conj(B1_a0) B2_b0 and in general non-zero; the qubit-list parsing and attribute merging of extend are covered by a search that compares extend with the tensor-product pulse built directly for all assignments of 1-3 single/two-qubit pulses to registers of <= 3 (thorough 4) qubits, every cache state and option value.',
+            'extend\'s qubit bookkeeping and _merge_attrs/_insert_attrs are validated, not proved; n-fold extension follows from the binary rule plus C06 but is not stated as one theorem.',
+            'DESIGN.md §5 C05'),
+    'C06': ('Lean 4 theorems: reindexing by a permutation of tensor factors is a *-algebra isomorphism (eigen-decomposition, propagators, Liouville representation, control matrix, filter function carried over by the index permutation = remapPauli), argsort bookkeeping of identifiers, composition and identity laws; search over all permutations',
+            'Machine-checked proof that every cached attribute remap carries over is the reindexed one and equals the attribute of the rebuilt pulse, that the Pauli index permutation is the one computed by remap_pauli_basis_elements (model compared with the real function for all permutations n <= 4), that the identifier re-sorting permutes rows as claimed and that remaps compose; search: all permutations for n = 2,3 (4), identifier maps that change the sort order, non-traceless operators, every cache state, vs the rebuilt permuted pulse.',
+            'identifier-mapping dictionaries of remap are validated by search; non-Pauli / incomplete bases: remap keeps the cached filter function, wrong only for incomplete bases not invariant under the permutation (noted in DESIGN).',
+            'DESIGN.md §5 C06'),
+    'C11': ('Lean 4 theorems on the gradient kernels: A_mat = integral of e^{ixs} with truncation bound and finite value on degenerate pairs, every branch of _derivative_integral = nested integral with explicit error bounds (and the grey-zone counterexample), filter-function derivative = 2 Re sum conj(B) dB is the derivative, linearity/slicing of the infidelity derivative; bit-pattern correspondence; finite-difference search',
+            'Machine-checked proof of the integral kernels, of the filter-function derivative formula (HasDerivAt) and of the selection/integration algebra; the perturbative assembly is tied by correspondence of the kernels and validated end to end by 4th-order finite differences of the package\'s own filter function and infidelity on pulses with idle/degenerate segments, zero amplitudes, identifier subsets and sensitivity derivatives.',
+            'Partial: the assembly of the control-matrix derivative is validated, not proved. Open findings F12 (division by a zero sensitivity) and F30 (grey zone of the absolute masks).',
+            'DESIGN.md §5 C11'),
+    'C14': ('Lean 4 theorems: Pauli basis for every n and GGM basis for every d are orthonormal, Hermitian, complete, identity first, rest traceless; Kronecker closure; expansion is the inverse of reconstruction, real for Hermitian M, closed-form GGM expansion = generic; from_partial properties under the null_space contract; flags sound; models executed against the package exactly',
+            'Machine-checked proof for all n / d of the constructed bases and of the expansion identities on executable models that reproduce Basis.pauli / Basis.ggm / expand / ggm_expand / the flags exactly (1e-12) on the compared inputs; from_partial is proved correct given the contract of scipy.linalg.null_space; search checks Gram matrices, ranks, containment, labels, rejections and flags near their tolerances.',
+            'null_space and matrix_rank are oracles. Open findings pinned by the repository\'s own tests: F15 (label shift) and F16 (isorthonorm of a single unnormalised element).',
+            'DESIGN.md §5 C14'),
+    'C17': ('Lean 4 theorems on a discrete model of _parse_Hamiltonian / _join_equal_segments / __eq__ / slicing: sorted storage keeps each operator with its coefficients and identifier, default identifiers distinct for every count, equality is an equivalence that holds iff the merged descriptions denote the same step functions, detects every single-feature difference, slices are sub-sequences; correspondence on abstract pulses; search on real pulses',
+            'Machine-checked proof on the discrete model, which is run against the real functions on thousands of abstract pulses (operators = fixed distinct matrices, integer data) with exact agreement; search on random real pulses: one-feature variants are unequal, re-segmentations equal, symmetry / transitivity, equal pulses have equal filter functions, slices, deep copies share no memory.',
+            'np.allclose on durations is modelled as exact equality (so transitivity is proved for exact comparison); zero-length segments are not merged by __eq__ (stated in the theorems); Python object aliasing is measured, not proved.',
+            'DESIGN.md §5 C17'),
     'C02': ('Lean 4 theorems over the executable model of numeric.diagonalize / PulseSequence.t, tau, propagator_at_arb_t: spectral form = matrix exponential under the eigh contract, cumulative propagators = time-ordered product, unitarity, times = cumulative sums (also for appended / tiled durations), arbitrary-time propagator incl. both-sided edge behaviour; regenerated contractions; correspondence',
             'Machine-checked proof for every dimension, segment count and duration that, given an eigendecomposition satisfying the eigh contract, the modelled propagators are exp(-i H dt) products, unitary, start at 1, end in the total propagator, that times/tau are cumulative sums (additive under concatenation, G-fold under tiling) and that propagator_at_arb_t selects the right segment and returns exp(-i H_g (t - t_g)) Q_g with left and right limits at every edge; the model runs on the package\'s own eigh output and is compared with the package at every edge, inside segments and beyond tau; the search checks the eigh contract residuals and compares with scipy expm.',
             'LAPACK eigh is an oracle (contract measured, not proved); floating point not modelled; times of pulses produced by extend/remap are covered by search only.',
